@@ -14,6 +14,7 @@ import (
 	"go/parser"
 	"go/token"
 	"go/types"
+	"os"
 	"regexp"
 	"sort"
 	"strings"
@@ -120,6 +121,7 @@ type typeFinding struct {
 	Msg  string
 	Line int
 	Text string
+	File string
 }
 
 // typeCheckWorld type-checks the unit against synthesized protoc-gen-go stand-ins.
@@ -145,8 +147,26 @@ func (c *Ctx) typeCheckWorld(u *Unit, fieldHoles map[string]bool, s Shape, withR
 			}
 		}
 	}
-	// mock / client worlds: message types come from composite literals and parameters; collected on demand
 	extraTypes := map[string]bool{}
+	declaredInUnit := map[string]bool{}
+	markDeclared := func(af *ast.File) {
+		for _, d := range af.Decls {
+			if gd, ok := d.(*ast.GenDecl); ok {
+				for _, sp := range gd.Specs {
+					if ts, ok := sp.(*ast.TypeSpec); ok {
+						declaredInUnit[ts.Name.Name] = true
+					}
+				}
+			}
+		}
+	}
+	markDeclared(f)
+	for t := range recv {
+		if declaredInUnit[t] {
+			delete(recv, t)
+		}
+	}
+	// mock / client worlds: message types come from composite literals and parameters; collected on demand
 	extraFuncs := map[string]bool{}
 	extraFields := map[string]map[string]string{} // type -> field -> go type
 	imp, err := c.newImporter(fset)
@@ -155,6 +175,28 @@ func (c *Ctx) typeCheckWorld(u *Unit, fieldHoles map[string]bool, s Shape, withR
 	}
 	var files []*ast.File
 	files = append(files, f)
+	srcOf := map[string]string{"world" + u.Suffix(): src}
+	if c.extraWorldUnit != nil {
+		esrc := c.extraWorldUnit.Text()
+		ename := "worldextra" + c.extraWorldUnit.Suffix()
+		ef, err := parser.ParseFile(fset, ename, esrc, 0)
+		if err != nil {
+			return nil, fmt.Errorf("service unit does not parse: %v", err)
+		}
+		files = append(files, ef)
+		srcOf[ename] = esrc
+		var asrt strings.Builder
+		asrt.WriteString("package " + pkgName + "\n")
+		for _, m := range ifaceRe.FindAllStringSubmatch(esrc, -1) {
+			asrt.WriteString("var _ " + m[1] + "Server = (*Mock" + m[1] + "Server)(nil)\n")
+		}
+		af, err := parser.ParseFile(fset, "worldassert.go", asrt.String(), 0)
+		if err == nil {
+			files = append(files, af)
+			srcOf["worldassert.go"] = asrt.String()
+		}
+		ast.Inspect(ef, func(n ast.Node) bool { return true })
+	}
 	if withRuntime {
 		ep, err := c.ServerRuntime()
 		if err != nil {
@@ -168,8 +210,26 @@ func (c *Ctx) typeCheckWorld(u *Unit, fieldHoles map[string]bool, s Shape, withR
 			files = append(files, rf)
 		}
 	}
-	goType, direct := s.GoType("ShapeMsg", "ShapeEnum")
-	base, _ := Shape{Kind: s.Kind, Card: "singular", Pres: "implicit"}.GoType("ShapeMsg", "ShapeEnum")
+	// the message type of a message-kind field: the placeholder the emitter prints for field.Message.GoIdent, if any
+	msgType := "ShapeMsg"
+	for _, l := range u.Lines {
+		for _, sg := range l.Segs {
+			if sg.Hole != nil && fieldMsgIdent.MatchString(sg.Hole.Key) && !strings.Contains(sg.Hole.Key, ".Message.Fields@") {
+				msgType = HoleName(sg.Hole)
+			}
+		}
+	}
+	goType, direct := s.GoType(msgType, "ShapeEnum")
+	if s.Kind == "timestamp" && msgType != "ShapeMsg" {
+		goType = strings.Replace(goType, "timestamppb.Timestamp", msgType, 1)
+	}
+	base, _ := Shape{Kind: s.Kind, Card: "singular", Pres: "implicit"}.GoType(msgType, "ShapeEnum")
+	if s.Kind == "timestamp" && msgType != "ShapeMsg" {
+		base = "*" + msgType
+	}
+	if msgType != "ShapeMsg" {
+		extraTypes[msgType] = true
+	}
 	for round := 0; round < 12; round++ {
 		var b strings.Builder
 		b.WriteString("package " + pkgName + "\n\nimport (\n\t\"google.golang.org/protobuf/reflect/protoreflect\"\n\ttimestamppb \"google.golang.org/protobuf/types/known/timestamppb\"\n)\n\n")
@@ -185,7 +245,7 @@ func (c *Ctx) typeCheckWorld(u *Unit, fieldHoles map[string]bool, s Shape, withR
 		}
 		for _, t := range sortedKeys(all) {
 			b.WriteString("type " + t + " struct {\n")
-			if recv[t] || extraTypes[t] {
+			if (recv[t] || extraTypes[t]) && t != msgType {
 				for _, fh := range sortedKeys(fieldHoles) {
 					if direct {
 						b.WriteString("\t" + fh + " " + goType + "\n")
@@ -212,6 +272,10 @@ func (c *Ctx) typeCheckWorld(u *Unit, fieldHoles map[string]bool, s Shape, withR
 		for _, fn := range sortedKeys(extraFuncs) {
 			b.WriteString("func " + fn + "(args ...any) any { return nil }\n")
 		}
+		if os.Getenv("VERIF_DEBUG_STUB") != "" && round > 0 {
+			fmt.Println("---- STUB round", round, "fieldHoles", sortedKeys(fieldHoles))
+			fmt.Println(b.String())
+		}
 		stub, err := parser.ParseFile(fset, fmt.Sprintf("stub%d.go", round), b.String(), 0)
 		if err != nil {
 			return nil, fmt.Errorf("stub does not parse: %v\n%s", err, b.String())
@@ -235,7 +299,13 @@ func (c *Ctx) typeCheckWorld(u *Unit, fieldHoles map[string]bool, s Shape, withR
 				name := m[1]
 				// a type (used in a composite literal / conversion / declaration) or a function?
 				if !extraTypes[name] && !extraFuncs[name] && !recv[name] {
-					if usedAsCallee(f, name) {
+					callee := false
+					for _, wf := range files {
+						if usedAsCallee(wf, name) {
+							callee = true
+						}
+					}
+					if callee {
 						extraFuncs[name] = true
 					} else {
 						extraTypes[name] = true
@@ -258,12 +328,16 @@ func (c *Ctx) typeCheckWorld(u *Unit, fieldHoles map[string]bool, s Shape, withR
 					continue
 				}
 			}
-			lines := strings.Split(src, "\n")
+			lines := strings.Split(srcOf[pos.Filename], "\n")
 			text := ""
 			if pos.Line >= 1 && pos.Line <= len(lines) {
 				text = strings.TrimSpace(lines[pos.Line-1])
 			}
-			findings = append(findings, typeFinding{Msg: te.Msg, Line: pos.Line, Text: text})
+			ln := pos.Line
+			if pos.Filename != "world"+u.Suffix() {
+				ln = 0
+			}
+			findings = append(findings, typeFinding{Msg: te.Msg, Line: ln, Text: text, File: pos.Filename})
 		}
 		if !changed {
 			return findings, nil
@@ -294,7 +368,7 @@ func fieldGoNameHoles(u *Unit) map[string]bool {
 				continue
 			}
 			k := sg.Hole.Key
-			if strings.HasSuffix(k, ".GoName") && !strings.HasSuffix(k, ".GoIdent.GoName") && !strings.Contains(k, "Methods@") && !strings.HasSuffix(k, "Services@0.GoName") && !strings.Contains(k, ".Oneof.GoName") {
+			if strings.HasSuffix(k, ".GoName") && !strings.HasSuffix(k, ".GoIdent.GoName") && !notFieldGoName.MatchString(k) {
 				out[HoleName(sg.Hole)] = true
 			}
 			if strings.HasSuffix(k, "FieldGoName") {
@@ -304,6 +378,10 @@ func fieldGoNameHoles(u *Unit) map[string]bool {
 	}
 	return out
 }
+
+var fieldMsgIdent = regexp.MustCompile(`(Fields@\d+|\.Field|\bfield)\.Message\.GoIdent(\.GoName)?$`)
+
+var notFieldGoName = regexp.MustCompile(`(Methods@\d+|Services@\d+|\.Oneof|\.Enum|\.Message)\.GoName$`)
 
 func classifyTypeError(msg string) string {
 	msg = holeFree(msg)
